@@ -106,3 +106,35 @@ def _build(variant, san, extra_defs, extra_srcs, name):
     link = [cc] + cflags + objs + ["-o", exe, "-lpthread"]
     _cc(link)
     return exe
+
+
+def build_cmt(san="native"):
+    """libblake3.so (from /repo/c, Unix assembly flavour) + the threaded executor cmt linked against
+    it. san: native | tsan (tsan: static link of instrumented C, intrinsics flavour, no .so)."""
+    key = ("cmt", san)
+    with _lock:
+        if key in _cache:
+            return _cache[key]
+        out = os.path.join(BUILD, "cmt_%s-%d" % (san, os.getpid()))
+        if os.path.isdir(out):
+            shutil.rmtree(out)
+        os.makedirs(out)
+        _dirs.append(out)
+        exe = os.path.join(out, "cmt")
+        if san == "native":
+            srcs = [os.path.join(C, f) for f in CORE_C + UNIX_ASM]
+            _cc(["gcc", "-O2", "-g", "-fPIC", "-shared", "-DBLAKE3_TESTING", "-mavx512f", "-mavx512vl", "-Wl,-z,now", "-I", C] + srcs + ["-o", os.path.join(out, "libblake3.so")])
+            _cc(["gcc", "-O2", "-g", "-Wall", "-I", C, os.path.join(CDRV, "cmt.c"), "-L", out, "-lblake3", "-Wl,-rpath," + out, "-lpthread", "-ldl", "-o", exe])
+        else:
+            objs = []
+            for f in CORE_C:
+                o = os.path.join(out, f + ".o")
+                _cc(["clang", "-O1", "-g", "-fsanitize=thread", "-DBLAKE3_TESTING", "-I", C, "-c", os.path.join(C, f), "-o", o])
+                objs.append(o)
+            for f, fl in INTRIN:
+                o = os.path.join(out, f + ".o")
+                _cc(["clang", "-O1", "-g", "-fsanitize=thread", "-DBLAKE3_TESTING", "-I", C] + fl + ["-c", os.path.join(C, f), "-o", o])
+                objs.append(o)
+            _cc(["clang", "-O1", "-g", "-fsanitize=thread", "-I", C, os.path.join(CDRV, "cmt.c")] + objs + ["-lpthread", "-ldl", "-rdynamic", "-o", exe])
+        _cache[key] = exe
+        return exe
